@@ -70,6 +70,12 @@ func (d *document) lookalike() string {
 func (d *document) key(class string) string {
 	nilMap := strings.HasPrefix(class, "sign/panic/signatures=null") || strings.HasPrefix(class, "sign/panic/signatures=entity-null")
 	if l := d.lookalike(); l != "" && !nilMap {
+		// one key per kind of failure: where in the behaviour it showed is not the point here
+		for _, cut := range []string{"/after=", "/signatures="} {
+			if i := strings.Index(class, cut); i >= 0 {
+				class = class[:i]
+			}
+		}
 		return "C02/lookalike-member/" + class
 	}
 	return "C02/" + class
